@@ -57,6 +57,10 @@ func c08ConcurrentScenarios(tier string) []*Scenario {
 				x.Ranges = `[["10.10.1.1"],["10.10.1.2~10.10.1.3"]]`
 				w.CreatePod(x)
 				mustSchedule(w, x.Key())
+				// the old incarnation failed (that notification has been handled: its addresses are free again) and was deleted (that
+				// notification is still to come)
+				w.SetPhase(x.Key(), corev1.PodFailed)
+				deliverAll(w, takePending(w))()
 				w.DeletePod(x.Key())
 				old := takePending(w)
 				w.Bindings = nil
